@@ -10,7 +10,10 @@ Local Open Scope Z_scope.
 
 Record run := mkrun { rlen : Z; rshift : bool; rbase : list label }.
 
-Definition zseq (n : Z) : list Z := map Z.of_nat (seq 0 (Z.to_nat n)).
+(* [0; 1; ...; n-1] (linear time: the counter is a Z, the fuel a nat) *)
+Fixpoint zseq_from (start : Z) (n : nat) : list Z :=
+  match n with O => [] | S n' => start :: zseq_from (start + 1) n' end.
+Definition zseq (n : Z) : list Z := zseq_from 0 (Z.to_nat n).
 
 Definition cell_at (r : run) (k : Z) : list label :=
   if rshift r then map (fun qi : label => (fst qi, snd qi + k)) (rbase r) else rbase r.
